@@ -6,6 +6,11 @@ unresponsive-connection detector runs on the harness's virtual clock. The rewrit
 proceed if the package reads the wall clock in any other way."""
 import glob, os, re
 
+# schedule hook: a line-preserving call in front of the first statement of gcpBalancer.newSubConn
+# (the `gb.mu.Lock()` that follows the pool-size check made by the picker without that lock); the
+# harness uses it to stop one pick exactly there (operation `pickhold`) and let it continue later
+HOOK_RE = re.compile(r"(func \(gb \*gcpBalancer\) newSubConn\(\) \{\n[ \t]*)(gb\.mu\.Lock\(\))")
+
 OTHER_CLOCK = re.compile(r"\btime\.(Since|Until)\(")
 
 class RewriteError(Exception):
@@ -13,6 +18,7 @@ class RewriteError(Exception):
 
 def rewrite_sources(kind, pkgdir, work):
     out = {}
+    hooked = False
     if kind != "vclock":
         raise RewriteError("unknown rewrite " + kind)
     for path in sorted(glob.glob(os.path.join(pkgdir, "*.go"))):
@@ -21,13 +27,22 @@ def rewrite_sources(kind, pkgdir, work):
         src = open(path).read()
         if OTHER_CLOCK.search(src):
             raise RewriteError(f"{path} reads the clock through time.Since/time.Until; the virtual-clock rewrite does not cover it")
-        if "time.Now()" not in src:
+        new = src
+        if "time.Now()" in src:
+            new = src.replace("time.Now()", "verifNow()")
+            if not re.search(r"\btime\.", new):
+                # keep the import used
+                new += "\nvar _ = time.Second\n"
+        if os.path.basename(path) == "gcp_balancer.go":
+            new, n = HOOK_RE.subn(r"\1verifHookNewSubConn(); \2", new, count=1)
+            hooked = hooked or n == 1
+        if new == src:
             continue
-        new = src.replace("time.Now()", "verifNow()")
-        if not re.search(r"\btime\.", new):
-            # keep the import used
-            new += "\nvar _ = time.Second\n"
         dst = os.path.join(work, "rw_" + os.path.basename(path))
         open(dst, "w").write(new)
         out[path] = dst
+    # tell the harness whether the hook could be placed (a refactored newSubConn: no `pickhold` operations)
+    gen = os.path.join(work, "zz_verif_hookgen_test.go")
+    open(gen, "w").write("//go:build verif\n\npackage grpcgcp\n\nconst verifHookInstalled = %s\n" % ("true" if hooked else "false"))
+    out[os.path.join(pkgdir, "zz_verif_hookgen_test.go")] = gen
     return out
